@@ -180,8 +180,11 @@ func TestChild(t *testing.T) {
 			return // a watchdog fired: the stuck goroutines would only make later runs slower
 		}
 	}
+	// the thorough tier has 25 times as many children: the scenarios keep their per-child
+	// size, except that every 25th child runs two long hooks-and-flush scenarios
 	nHF := 1
-	if sp.Tier == "thorough" {
+	longHF := sp.Tier == "thorough" && b%25 == 0
+	if longHF {
 		nHF = 2
 	}
 	for k := 0; k < nHF; k++ {
@@ -190,7 +193,7 @@ func TestChild(t *testing.T) {
 			continue
 		}
 		wr.InFlight(caseID)
-		if stop := hookFlushScenario(wr, caseID, rand.New(rand.NewSource(sp.Seed*1000081+int64(b)*139+int64(k))), sp.Tier == "thorough"); stop {
+		if stop := hookFlushScenario(wr, caseID, rand.New(rand.NewSource(sp.Seed*1000081+int64(b)*139+int64(k))), longHF); stop {
 			return
 		}
 	}
